@@ -40,6 +40,14 @@ RECURSIVE SortSet(_)
 SortSet(T) == IF T = {} THEN << >>
               ELSE LET m == CHOOSE x \in T : \A y \in T : x <= y IN <<m>> \o SortSet(T \ {m})
 
+\* besides its own column, an instant shares further columns with other instants: column
+\* n + m - 1 (m in 1..2n) was set - on row 0 - once per instant of Multi(n)[m], i.e. with two or
+\* three timestamps: neighbours (same day / month / year more often than not) and instants 5 and
+\* 10 further on, wrapping around (other days, months, years, windows).  A column is in a
+\* range iff any of its timestamps is.
+Multi(n) == [m \in 1..(2*n) |-> IF m <= n THEN {m, (m % n) + 1}
+                                 ELSE {m - n, ((m - n + 4) % n) + 1, ((m - n + 9) % n) + 1}]
+
 Init == /\ phase = "q" /\ q = "" /\ inst = << >> /\ from = 0 /\ to = 0 /\ hist = << >>
 
 Rec(r) == IF Gen THEN Append(hist, r) ELSE hist
@@ -50,7 +58,8 @@ ChooseQ ==
          /\ q' = qq
          /\ inst' = SortSet(InstantsOf(qq))
          /\ hist' = Rec([op |-> "Field", q |-> qq,
-                         inst |-> [i \in 1..Len(inst') |-> <<inst'[i], ViewHi(ViewAt(Finest(qq), inst'[i]))>>]])
+                         inst |-> [i \in 1..Len(inst') |-> <<inst'[i], ViewHi(ViewAt(Finest(qq), inst'[i]))>>],
+                         multi |-> Multi(Len(inst'))])
     /\ phase' = "from" /\ UNCHANGED <<from, to>>
 
 ChooseFrom ==
@@ -73,7 +82,8 @@ ChooseTo ==
          /\ Gen \/ (b - from) <= SpanLimit(Finest(q))
          /\ to' = b
          /\ hist' = Rec([op |-> "Range", q |-> q, from |-> from, to |-> b,
-                         cols |-> {i - 1 : i \in InRange(from, b)}])
+                         cols |-> {i - 1 : i \in InRange(from, b)} \cup
+                                  {Len(inst) + m - 1 : m \in {x \in 1..(2*Len(inst)) : Multi(Len(inst))[x] \cap InRange(from, b) # {}}}])
     /\ phase' = "done" /\ UNCHANGED <<q, inst, from>>
 
 Next == ChooseQ \/ ChooseFrom \/ ChooseTo
